@@ -953,6 +953,22 @@ impl<'a> Visitor<'a, Result<Expr>> for TryIntoExprVisitor<'a> {
             }
             _ => false,
         };
+        // The number of arguments is checked before they are accessed by index
+        let min_args: usize = match function_name {
+            "random" | "rand" | "pi" | "newid" | "current_date" | "current_time"
+            | "current_timestamp" | "unix_timestamp" | "concat" => 0,
+            "pow" | "power" | "greatest" | "least" | "substr" | "regexp_contains"
+            | "regexp_extract" | "regexp_substr" | "encode" | "decode" | "date_format"
+            | "choose" => 2,
+            "regexp_replace" | "datetime_diff" => 3,
+            _ => 1,
+        };
+        if flat_args.len() < min_args {
+            return Err(Error::other(format!(
+                "{function_name} expects at least {min_args} argument(s), got {}",
+                flat_args.len()
+            )));
+        }
         Ok(match function_name {
             // Math Functions
             "opposite" => Expr::opposite(flat_args[0].clone()),
@@ -1124,7 +1140,11 @@ impl<'a> Visitor<'a, Result<Expr>> for TryIntoExprVisitor<'a> {
             "variance" => Expr::var(flat_args[0].clone()),
             "stddev" if distinct => Expr::std_distinct(flat_args[0].clone()),
             "stddev" => Expr::std(flat_args[0].clone()),
-            _ => todo!(),
+            _ => {
+                return Err(Error::other(format!(
+                    "The function {function_name} is not supported"
+                )))
+            }
         })
     }
 
